@@ -19,7 +19,8 @@ pub enum Op {
 
 pub fn alphabet() -> Vec<Op> {
     let mut v = vec![];
-    for s in ["a", "<", "ab", "", "\u{e9}", "a<", "Ab", "&b", "abababababab<"] {
+    // '|' = '<' + 64 and 'f' = '&' + 64 alias the set members in a 64-bit set; 3- and 4-byte characters
+    for s in ["a", "<", "ab", "", "\u{e9}", "a<", "Ab", "&b", "abababababab<", "b", "|f", "\u{20ac}<", "\u{1f600}a"] {
         v.push(Op::PushBack(s));
     }
     for s in ["a", "<", "ab", "", "\u{e9}", "a<", "Ab"] {
@@ -31,7 +32,7 @@ pub fn alphabet() -> Vec<Op> {
     for set in ["<", "<&", ""] {
         v.push(Op::PopExcept(set));
     }
-    for p in ["a", "ab", "aba", "<a", "\u{e9}", "a<", "AB"] {
+    for p in ["a", "ab", "aba", "<a", "\u{e9}", "a<", "AB", "|", "\u{20ac}<"] {
         v.push(Op::Eat(p, false));
         v.push(Op::Eat(p, true));
     }
@@ -244,7 +245,120 @@ pub fn render(ops: &[Op], h: &[u16]) -> String {
         .join("; ")
 }
 
+/// every Unicode scalar value as queue content: pop_except_from with the sets the tokenizers use
+/// (a 64-bit set must not confuse a character with a member it is congruent to), next/peek, and eat
+/// with and without ASCII case folding; buffers [x c y] and [x c][y]
+pub fn scalar_sweep(ctx: &Ctx) -> u64 {
+    use rayon::prelude::*;
+    const SETS: &[&str] = &["<&", "\r\0&<\n", "\t\n\x0c \"&\'/<=>\r\0", "-\0\r\n", "", " !#$%()*+,.0123456789:;?"];
+    fn expect(bufs: &[String], set: &str) -> Vec<Result<char, String>> {
+        let mut out = vec![];
+        for b in bufs {
+            let mut run = String::new();
+            for ch in b.chars() {
+                if set.contains(ch) {
+                    if !run.is_empty() {
+                        out.push(Err(std::mem::take(&mut run)));
+                    }
+                    out.push(Ok(ch));
+                } else {
+                    run.push(ch);
+                }
+            }
+            if !run.is_empty() {
+                out.push(Err(run));
+            }
+        }
+        out
+    }
+    let n = std::sync::atomic::AtomicU64::new(0);
+    (0u32..=0x10FFFF).into_par_iter().for_each(|cp| {
+        let Some(c) = char::from_u32(cp) else { return };
+        let mut k = 0u64;
+        for bufs in [vec![format!("x{c}y")], vec![format!("x{c}"), "y".to_string()], vec![c.to_string()]] {
+            for set in SETS {
+                k += 1;
+                let r = guarded(|| {
+                    let q = BufferQueue::default();
+                    for b in &bufs {
+                        q.push_back(StrTendril::from_slice(b));
+                    }
+                    let mut got = vec![];
+                    while let Some(r) = q.pop_except_from(set_of(set)) {
+                        got.push(match r {
+                            SetResult::FromSet(c) => Ok(c),
+                            SetResult::NotFromSet(t) => Err(t.to_string()),
+                        });
+                        if got.len() > 16 {
+                            break;
+                        }
+                    }
+                    got
+                });
+                let want = expect(&bufs, set);
+                match r {
+                    Ok(got) if got == want => {},
+                    Ok(got) => {
+                        ctx.violation("return-value", &format!("sweep pop_except_from set={set:?} buffers={bufs:?}"), json!({"message": format!("model {want:?} real {got:?}")}));
+                    },
+                    Err(p) => {
+                        ctx.violation("panic", &format!("sweep pop_except_from set={set:?} buffers={bufs:?}"), json!({"message": p}));
+                    },
+                }
+            }
+            // next/peek deliver the characters in order
+            k += 1;
+            let q = BufferQueue::default();
+            for b in &bufs {
+                q.push_back(StrTendril::from_slice(b));
+            }
+            let all: String = bufs.concat();
+            let mut got = String::new();
+            loop {
+                let p = q.peek();
+                let nx = q.next();
+                if p != nx {
+                    ctx.violation("return-value", &format!("sweep peek/next buffers={bufs:?}"), json!({"message": format!("peek {p:?} next {nx:?}")}));
+                }
+                match nx {
+                    Some(ch) => got.push(ch),
+                    None => break,
+                }
+            }
+            if got != all {
+                ctx.violation("return-value", &format!("sweep next buffers={bufs:?}"), json!({"message": format!("model {all:?} real {got:?}")}));
+            }
+            // eat: the text itself matches; an ASCII letter pattern matches only itself (or its other case when folding)
+            for ci in [false, true] {
+                for pat in [all.clone(), "xAy".to_string(), "xay".to_string(), "A".to_string(), "k".to_string(), "K".to_string(), "\u{212a}".to_string()] {
+                    k += 1;
+                    let q = BufferQueue::default();
+                    for b in &bufs {
+                        q.push_back(StrTendril::from_slice(b));
+                    }
+                    let got = if ci { q.eat(&pat, u8::eq_ignore_ascii_case) } else { q.eat(&pat, u8::eq) };
+                    let (ab, pb) = (all.as_bytes(), pat.as_bytes());
+                    let m = ab.len().min(pb.len());
+                    let prefix_ok = (0..m).all(|i| beq(ci, ab[i], pb[i]));
+                    let want = if !prefix_ok { Some(false) } else if ab.len() < pb.len() { None } else { Some(true) };
+                    let mut rest = String::new();
+                    while let Some(ch) = q.next() {
+                        rest.push(ch);
+                    }
+                    let want_rest = if want == Some(true) { all[pat.len()..].to_string() } else { all.clone() };
+                    if got != want || rest != want_rest {
+                        ctx.violation("return-value", &format!("sweep eat pattern={pat:?} fold={ci} buffers={bufs:?}"), json!({"message": format!("model {want:?} rest {want_rest:?}; real {got:?} rest {rest:?}")}));
+                    }
+                }
+            }
+        }
+        n.fetch_add(k, std::sync::atomic::Ordering::Relaxed);
+    });
+    n.load(std::sync::atomic::Ordering::Relaxed)
+}
+
 pub fn main(ctx: &Ctx) -> ! {
+    let sweep = scalar_sweep(ctx);
     let ops = alphabet();
     let cap = ctx.tier.pick(8, 10);
     let cfg = BfsCfg {
@@ -281,7 +395,7 @@ pub fn main(ctx: &Ctx) -> ! {
         },
     );
     samples.force(json!({"deepest": render(&ops, &out.deepest)}));
-    ctx.assume("content alphabet {a,b,A,<,&,e-acute}; total queued text capped so the graph is finite");
+    ctx.assume("content alphabet {a,b,A,<,&,|,f,e-acute,euro sign,U+1F600}; total queued text capped so the graph is finite");
     ctx.assume("state key = buffer partition + heap/inline class of each buffer");
     ctx.finish(
         "model_checking",
@@ -294,6 +408,7 @@ pub fn main(ctx: &Ctx) -> ! {
             "capped_by": out.capped_by,
             "content_cap_chars": cap,
             "alphabet_size": ops.len(),
+            "scalar_sweep_evaluations": sweep,
             "level_sizes": out.level_sizes,
             "rule": "product BFS of (real BufferQueue, Vec<String> model); every transition compares return value and full partition",
             "samples": samples.take(),
@@ -302,6 +417,11 @@ pub fn main(ctx: &Ctx) -> ! {
 }
 
 pub fn replay(ctx: &Ctx, witness: &str) {
+    if witness.starts_with("sweep ") {
+        // the sweep is cheap and deterministic: re-run it whole
+        scalar_sweep(ctx);
+        return;
+    }
     let ops = alphabet();
     let names: Vec<String> = ops.iter().map(|o| format!("{o:?}")).collect();
     let h: Vec<u16> = witness
